@@ -320,25 +320,36 @@ theorem memWrite_eq_spec (s : StoreState) (dels : List TupleKey) (writes : List 
 
 /-! ### the SQL transaction: nothing is published before COMMIT -/
 
+/-- the source facts the atomicity argument rests on: every data statement runs on the transaction and the
+    rollback is deferred (tie lemmas over `Gen.StoreWrite` in Props/C12) -/
+structure CfgOK (cfg : SqlCfg) : Prop where
+  del : cfg.deleteInTxn = true
+  ins : cfg.insertInTxn = true
+  log : cfg.changelogInTxn = true
+  rb : cfg.rollbackDeferred = true
+
+theorem cfgOK_good : CfgOK SqlCfg.good := ⟨rfl, rfl, rfl, rfl⟩
+
 /-- With every statement on the transaction and the rollback deferred: whatever fails, wherever (statement k fails
     before or after it ran, the COMMIT fails), the committed state is untouched and no transaction stays open;
     a run without error ends with the transaction closed. -/
-theorem runStmts_atomic (now : Nat) (f : Option Fail) :
+theorem runStmts_atomic (cfg : SqlCfg) (hc : CfgOK cfg) (now : Nat) (f : Option Fail) :
     ∀ (stmts : List Stmt) (db : Db) (i : Nat),
-      (runStmts SqlCfg.good now f db stmts i).1.pending = none ∧
-      ((runStmts SqlCfg.good now f db stmts i).2 ≠ none →
-        (runStmts SqlCfg.good now f db stmts i).1.committed = db.committed) := by
+      (runStmts cfg now f db stmts i).1.pending = none ∧
+      ((runStmts cfg now f db stmts i).2 ≠ none →
+        (runStmts cfg now f db stmts i).1.committed = db.committed) := by
+  obtain ⟨hdel, hins, hlog, hrb⟩ := hc
   intro stmts
   induction stmts with
-  | nil => intro db i; simp [runStmts, SqlCfg.good]
+  | nil => intro db i; simp [runStmts, hrb]
   | cons st rest ih =>
     intro db i
     cases st with
     | commit =>
       simp only [runStmts]
-      split <;> simp [SqlCfg.good]
+      split <;> simp [hrb]
     | deleteTuples keys =>
-      simp only [runStmts, Stmt.inTxn, SqlCfg.good, if_true]
+      simp only [runStmts, Stmt.inTxn, hdel, hrb, if_true]
       split
       · simp
       · cases execStmt now (db.pending.getD db.committed) (Stmt.deleteTuples keys) <;> simp [Except.map]
@@ -349,7 +360,7 @@ theorem runStmts_atomic (now : Nat) (f : Option Fail) :
           have := ih { db with pending := some tx' } (i + 1)
           simpa using this
     | insertTuples rows =>
-      simp only [runStmts, Stmt.inTxn, SqlCfg.good, if_true]
+      simp only [runStmts, Stmt.inTxn, hins, hrb, if_true]
       split
       · simp
       · cases execStmt now (db.pending.getD db.committed) (Stmt.insertTuples rows) <;> simp [Except.map]
@@ -360,7 +371,7 @@ theorem runStmts_atomic (now : Nat) (f : Option Fail) :
           have := ih { db with pending := some tx' } (i + 1)
           simpa using this
     | insertChangelog rows =>
-      simp only [runStmts, Stmt.inTxn, SqlCfg.good, if_true]
+      simp only [runStmts, Stmt.inTxn, hlog, hrb, if_true]
       split
       · simp
       · cases execStmt now (db.pending.getD db.committed) (Stmt.insertChangelog rows) <;> simp [Except.map]
@@ -374,34 +385,35 @@ theorem runStmts_atomic (now : Nat) (f : Option Fail) :
 /-- `sqlite.write` is all-or-nothing for every failure point: if the call returns an error — its own validation
     error, a statement that fails (before or after it ran), a connection that dies, a failed COMMIT — the committed
     state is exactly what it was; and no transaction is left open. -/
-theorem sqlWrite_atomic (db : Db) (dels : List TupleKey) (writes : List TupleRec) (o : WriteOpts) (now : Nat)
-    (f : Option Fail) (hp : db.pending = none) :
-    (sqlWrite SqlCfg.good db dels writes o now f).1.pending = none ∧
-    ((sqlWrite SqlCfg.good db dels writes o now f).2 ≠ none →
-      (sqlWrite SqlCfg.good db dels writes o now f).1.committed = db.committed) := by
-  generalize hr : sqlWrite SqlCfg.good db dels writes o now f = r
+theorem sqlWrite_atomic (cfg : SqlCfg) (hc : CfgOK cfg) (db : Db) (dels : List TupleKey) (writes : List TupleRec)
+    (o : WriteOpts) (now : Nat) (f : Option Fail) (hp : db.pending = none) :
+    (sqlWrite cfg db dels writes o now f).1.pending = none ∧
+    ((sqlWrite cfg db dels writes o now f).2 ≠ none →
+      (sqlWrite cfg db dels writes o now f).1.committed = db.committed) := by
+  have hrb := hc.rb
+  generalize hr : sqlWrite cfg db dels writes o now f = r
   unfold sqlWrite at hr
   by_cases h0 : firesAt f 0 = true
   · rw [if_pos h0] at hr; subst hr; simp [hp]
   rw [if_neg h0] at hr
   simp only at hr
   by_cases hk : (dels ++ writes.map (·.key)).eraseDups.isEmpty = true
-  · rw [if_pos hk] at hr; subst hr; simp [txRollback, SqlCfg.good]
+  · rw [if_pos hk] at hr; subst hr; simp [txRollback, hrb]
   rw [if_neg hk] at hr
   by_cases h1 : firesAt f 1 = true
-  · rw [if_pos h1] at hr; subst hr; simp [txRollback, SqlCfg.good]
+  · rw [if_pos h1] at hr; subst hr; simp [txRollback, hrb]
   rw [if_neg h1] at hr
   cases hd : sqlPlanDeletes (db.committed.tuples.filter (fun t => (dels ++ writes.map (·.key)).eraseDups.contains t.key)) o dels [] with
-  | error e => rw [hd] at hr; subst hr; simp [txRollback, SqlCfg.good]
+  | error e => rw [hd] at hr; subst hr; simp [txRollback, hrb]
   | ok delKeys =>
     rw [hd] at hr
     cases hw : sqlPlanWrites (db.committed.tuples.filter (fun t => (dels ++ writes.map (·.key)).eraseDups.contains t.key)) o writes [] with
-    | error e => rw [hw] at hr; subst hr; simp [txRollback, SqlCfg.good]
+    | error e => rw [hw] at hr; subst hr; simp [txRollback, hrb]
     | ok rows =>
       rw [hw] at hr
       simp only at hr
       subst hr
-      have := runStmts_atomic now f (sqlStmts delKeys rows) { committed := db.committed, pending := some db.committed } 2
+      have := runStmts_atomic cfg hc now f (sqlStmts delKeys rows) { committed := db.committed, pending := some db.committed } 2
       simpa using this
 
 end OpenFGAVerif.Proofs.StoreWrite
